@@ -36,7 +36,7 @@ LEVEL_TEXT = (
 LEVEL_NOTE = "Trusted: numpy float64 arithmetic, the C07 reference model (vmon/ref.py); edge points within the stated margin are either-way."
 TECHNIQUE = "runtime postcondition monitor on block_split (all aliases rebound) with an independent floor-arithmetic reference labelling; seeded hostile point clouds incl. exact edge/corner/outside points"
 FLOORS = {
-    "quick": {"eval:block_split": 1600, "eval:label": 120000, "distinct_nontrivial": 1200, "points:edge": 15000, "points:outside": 15000, "eval:layout_pair": 200, "class:dtype_int_east_float_north": 30, "class:dtype_float32_both": 30, "class:history_calls": 160, "class:nonfinite_ignored_coordinate": 250, "class:large_cloud": 2, "class:concurrent_calls": 8},
+    "quick": {"eval:block_split": 1600, "eval:label": 120000, "distinct_nontrivial": 1200, "points:edge": 15000, "points:outside": 15000, "eval:layout_pair": 200, "class:dtype_int_east_float_north": 30, "class:dtype_float32_both": 30, "class:history_calls": 160, "class:nonfinite_ignored_coordinate": 250, "class:large_cloud": 2, "class:degenerate_geometry_call": 700, "class:zero_extent_region": 400, "class:concurrent_calls": 8},
     "thorough": {"eval:block_split": 25000, "eval:label": 2000000, "distinct_nontrivial": 20000, "points:edge": 200000, "points:outside": 200000},
 }
 JOBS = {"quick": 1, "thorough": 16}
@@ -47,8 +47,8 @@ AMBIENT_FILES = ['test_blockreduce.py', 'test_model_selection.py', 'test_project
 
 def plan(tier):
     if tier == "quick":
-        return collections.OrderedDict(random=240, edges=160, outside=120, layouts=100, dtypes=80, history=40, nested=40, large=4, threads=8)
-    return collections.OrderedDict(random=4000, edges=2500, outside=2000, layouts=1500, dtypes=1500, history=800, nested=600, large=48, threads=160, ambient=4)
+        return collections.OrderedDict(random=240, edges=160, outside=120, layouts=100, dtypes=80, history=40, nested=40, large=4, threads=8, degenerate=20)
+    return collections.OrderedDict(random=4000, edges=2500, outside=2000, layouts=1500, dtypes=1500, history=800, nested=600, large=48, threads=160, degenerate=300, ambient=4)
 
 
 # ----------------------------------------------------------------------
@@ -69,6 +69,9 @@ def _axis_blocks(lo, hi, size, spacing, adjust):
 
 def _allowed_index(values, lo, width, n, bound_mag, feps=ref.EPS):
     """Per point: lower and upper admissible block index along one axis."""
+    if width == 0:  # zero-extent axis with blocks of zero width: no point is strictly inside any of them, every index is admissible
+        zero = np.zeros(np.shape(values), dtype=int)
+        return zero, zero + (n - 1), np.ones(np.shape(values), dtype=bool), np.zeros(np.shape(values), dtype=bool)
     u = (values - lo) / width
     margin = max(1e-9, 64 * feps * bound_mag / width)
     nearest = np.round(u)
@@ -86,10 +89,23 @@ def install(tap, run):
     import verde.coordinates as vc
 
     def post(ev):
-        if ev.exc is not None:
-            return
         a = ev.args
         coords = a["coordinates"]
+        if ev.exc is not None:
+            # a region that is valid (W <= E, S <= N; zero width or height included), given or inferred, must not be refused as invalid
+            try:
+                reg = a["region"]
+                if reg is None:
+                    e0, n0 = np.asarray(coords[0], dtype="float64"), np.asarray(coords[1], dtype="float64")
+                    reg = (e0.min(), e0.max(), n0.min(), n0.max())
+                w0, e0_, s0, n0_ = (float(v) for v in reg)
+                valid = len(reg) == 4 and w0 <= e0_ and s0 <= n0_ and np.all(np.isfinite([w0, e0_, s0, n0_]))
+            except Exception:  # noqa: BLE001
+                valid = False
+            if valid and isinstance(ev.exc, ValueError) and "Invalid region" in str(ev.exc):
+                run.evaluated("block_split")
+                run.violation("block_split", "the valid region %r was refused: %s" % ([w0, e0_, s0, n0_], ev.exc), {"region": a["region"], "shape": a["shape"], "spacing": a["spacing"]}, key="valid-region-refused")
+            return
         east = np.asarray(coords[0], dtype="float64").ravel()
         north = np.asarray(coords[1], dtype="float64").ravel()
         if east.size == 0 or not (np.all(np.isfinite(east)) and np.all(np.isfinite(north))):
@@ -106,9 +122,11 @@ def install(tap, run):
         if region is None:
             region = (east.min(), east.max(), north.min(), north.max())
         w, e, s, n = (float(v) for v in region[:4])
-        if not (e > w and n > s):
-            run.count("skipped:degenerate_region")
+        if not (e >= w and n >= s):
+            run.count("skipped:invalid_region")
             return
+        if not (e > w and n > s):
+            run.count("class:zero_extent_region")
         shape, spacing, adjust = a["shape"], a["spacing"], a["adjust"]
         if shape is not None:
             size_n, size_e, sp_n, sp_e = shape[0], shape[1], None, None
@@ -373,6 +391,34 @@ def run_case(run, tap, stream, index, rng):
             vd.block_split((east, north), spacing=sp)
             vd.block_split((east, north), spacing=sp, adjust="region", region=region)
             run.count("class:history_calls", 4)
+        elif stream == "degenerate":
+            # degenerate geometry the statement still covers: a single N-S or W-E line of points, one point, a region of zero width or
+            # height given explicitly - one column / row of blocks (or blocks of zero width), every label a valid index
+            for _ in range(6):
+                k = int(rng.choice([1, 2, 5, 40]))
+                base_e, base_n = float(rng.normal() * 100), float(rng.normal() * 100)
+                length = float(10 ** rng.uniform(-1, 3))
+                kind = int(rng.integers(0, 3)) if k > 1 else 2
+                east = np.full(k, base_e) if kind in (0, 2) else base_e + rng.uniform(0, length, k)
+                north = np.full(k, base_n) if kind in (1, 2) else base_n + rng.uniform(0, length, k)
+                if kind != 2:
+                    (north if kind == 0 else east)[[0, -1]] = (base_n if kind == 0 else base_e), (base_n if kind == 0 else base_e) + length
+                region = [float(east.min()), float(east.max()), float(north.min()), float(north.max())]
+                sp = float(length / rng.uniform(1.5, 8))
+                for kwargs in (dict(spacing=sp), dict(spacing=sp, adjust="region"), dict(spacing=(sp, sp * 0.7)), dict(shape=(int(rng.integers(1, 5)), int(rng.integers(1, 5)))), dict(shape=(1, 1))):
+                    for reg in (None, region, tuple(region)):
+                        try:
+                            vd.block_split((east, north), region=reg, **kwargs)
+                        except Exception:  # noqa: BLE001 - judged by the monitor
+                            run.count("degenerate_call_raised")
+                        run.count("class:degenerate_geometry_call")
+                # points off a zero-width region go to the nearest (only) column
+                off = (east + rng.normal(size=k) * length, north + rng.normal(size=k) * length)
+                try:
+                    vd.block_split(off, region=region, spacing=sp)
+                except Exception:  # noqa: BLE001
+                    run.count("degenerate_call_raised")
+            run.sample("degenerate", {"region": region, "n_points": k, "kind": kind})
         elif stream == "large":
             # many points in one call: a chunked or 'fast' branch taken only above some size must label the first, the last and
             # every chunk-boundary point like the plain path (sizes around powers of two and of ten, and odd ones)
